@@ -41,11 +41,14 @@ fn router_world(ctx: &mut Ctx) {
     let k = 1 + ctx.plan(4) as usize;
     let mut plans = Vec::new();
     for i in 0..k {
-        let identity = match ctx.plan(4) {
+        // "present but empty" is what libzmq peers announce by default: it means anonymous, the
+        // socket must assign a unique identity just as when the property is absent
+        let identity = match ctx.plan(5) {
             0 => None,
             1 => Some(vec![b'A' + i as u8]),
             2 => Some((0..16).map(|j| (i * 16 + j + 1) as u8).collect()),
-            _ => Some((0..255).map(|j| ((i * 7 + j) % 251 + 1) as u8).collect()),
+            3 => Some((0..255).map(|j| ((i * 7 + j) % 251 + 1) as u8).collect()),
+            _ => Some(vec![]),
         };
         plans.push(PeerPlan { stype: ["DEALER", "REQ", "ROUTER"][ctx.plan(3) as usize], identity, inbound: 1 + ctx.plan(4) as usize, departs: k > 1 && ctx.plan(4) == 0, start_yields: ctx.plan(8) as u32 });
     }
@@ -143,7 +146,7 @@ fn router_world(ctx: &mut Ctx) {
                         }
                         _ => {}
                     }
-                    if let Some(id) = &plans2[o].identity {
+                    if let Some(id) = plans2[o].identity.as_ref().filter(|id| !id.is_empty()) {
                         if *id != label {
                             s2.borrow_mut().viol.push(("label_not_announced_identity", format!("peer {o} announced {} but is labelled {}", hex(id), hex(&label))));
                             return world::park().await;
@@ -165,11 +168,11 @@ fn router_world(ctx: &mut Ctx) {
         for (n, t) in targets2.iter().enumerate() {
             let body = tagged(99, n as u32, &shapes[n]);
             let (id, expect_peer): (Vec<u8>, Option<usize>) = match t {
-                Target::Peer(i) => match labels[*i].clone().or(plans2[*i].identity.clone()) {
+                Target::Peer(i) => match labels[*i].clone().or(plans2[*i].identity.clone().filter(|x| !x.is_empty())) {
                     Some(l) => (l, Some(*i)),
                     None => continue, // label never learnt (peer sent nothing we saw)
                 },
-                Target::Departed(i) => match labels[*i].clone().or(plans2[*i].identity.clone()) {
+                Target::Departed(i) => match labels[*i].clone().or(plans2[*i].identity.clone().filter(|x| !x.is_empty())) {
                     Some(l) => (l, None),
                     None => continue,
                 },
